@@ -266,18 +266,34 @@ func c04Apply(t *testing.T, img *Image, hist []c04Op, res *vout.Result) (string,
 				t.Fatalf("harness: restart failed: %v", err)
 			}
 			w.s = ns
-		default: // revocations
-			ok, txt := w.revoke(op.Kind, op.Tok)
+		default: // revocations ("+crash": the process stops right after the answer, before any background work)
+			crash := strings.HasSuffix(op.Kind, "+crash")
+			ok, txt := w.revoke(strings.TrimSuffix(op.Kind, "+crash"), op.Tok)
+			if crash {
+				snap := w.s.Phys.Snapshot()
+				img2 := w.s.Image()
+				w.s.Close()
+				ns, err := BootData(t, snap, img2)
+				if err != nil {
+					t.Fatalf("harness: restart failed: %v", err)
+				}
+				w.s = ns
+			}
 			if ok {
 				if w.toks[op.Tok].alive || op.Kind != "revoke-self" {
 					// a reported success on a live token kills it (and its tree);
 					// on an already dead token the API answers success too (idempotent)
 					if w.toks[op.Tok].alive {
-						w.kill(op.Tok, op.Kind == "revoke-orphan")
+						w.kill(op.Tok, strings.HasPrefix(op.Kind, "revoke-orphan"))
 					}
 				}
 			} else if w.toks[op.Tok].alive {
 				return "revoke-refused", fmt.Sprintf("step %d %s on a live token failed: %s", step, op, txt), w
+			}
+		}
+		if os.Getenv("VERIF_DEBUG") != "" {
+			for _, tk := range w.toks {
+				t.Logf("step %d %s: token %s id=%s acc=%s alive=%v", step, op, tk.name, tk.id, tk.accessor, tk.alive)
 			}
 		}
 		if sig, msg := w.check(); sig != "" {
@@ -290,7 +306,7 @@ func c04Apply(t *testing.T, img *Image, hist []c04Op, res *vout.Result) (string,
 func c04Alphabet(ntoks int) []c04Op {
 	out := []c04Op{{"create", -1}, {"restart", 0}}
 	for i := 0; i < ntoks; i++ {
-		for _, k := range []string{"create", "lease", "cubby", "revoke", "revoke-self", "revoke-orphan", "revoke-accessor", "lease-revoke", "renew"} {
+		for _, k := range []string{"create", "lease", "cubby", "revoke", "revoke-self", "revoke-orphan", "revoke-accessor", "lease-revoke", "renew", "revoke+crash", "revoke-accessor+crash"} {
 			out = append(out, c04Op{k, i})
 		}
 	}
@@ -423,6 +439,9 @@ func TestVerifC04(t *testing.T) {
 					key := w.modelString()
 					if op.Kind == "restart" {
 						key += " R"
+					}
+					if strings.HasSuffix(op.Kind, "+crash") {
+						key += " C"
 					}
 					if !last {
 						if seen[key] {
@@ -563,10 +582,43 @@ func TestVerifC04(t *testing.T) {
 						res.Distinct("nontrivial", fmt.Sprintf("K|%s|%d|%d", kind, target, j))
 						s2.Close()
 					}
+					// crash immediately AFTER the API reported success: whatever the
+					// revocation deferred to background work must survive a restart
+					item++
+					if vout.Mine(item) {
+						s := Boot(t, tr.img)
+						w := tr.world(s)
+						ok, _ := w.revoke(kind, target)
+						snap := s.Phys.Snapshot()
+						s.Close()
+						if ok {
+							s2, err := BootData(t, snap, tr.img)
+							res.Add("executions", 1)
+							res.Add("crash_runs", 1)
+							if err != nil {
+								res.Violate("c04:crash:restart-failed", fmt.Sprintf("%s(t%d): crash after success: restart failed: %v", kind, target, err),
+									SchedReplay{Scenario: "crash", Params: map[string]interface{}{"kind": kind, "target": target, "j": -1}})
+							} else {
+								w2 := tr.world(s2)
+								w2.kill(target, kind == "revoke-orphan")
+								if sig, msg := w2.check(); sig != "" {
+									res.Violate("c04:crash-after-success:"+sig, fmt.Sprintf("%s(t%d) nonTxn=%v: the API reported success, the process stopped before any background work ran, restart: %s", kind, target, nonTxn, msg),
+										SchedReplay{Scenario: "crash", Params: map[string]interface{}{"kind": kind, "target": target, "j": -1, "nonTxn": nonTxn}})
+								}
+								res.Distinct("nontrivial", fmt.Sprintf("K|%s|%d|after-success", kind, target))
+								s2.Close()
+							}
+						}
+					}
 					_ = ki
 				}
 			}
 		}
+	}
+
+	// ---- N: token trees crossing namespace boundaries
+	if only == "" || only == "N" {
+		c04PartN(t, res, &item)
 	}
 
 	// ---- S: revoke(P) || create child of P (|| use the child's sibling)
